@@ -249,7 +249,9 @@ func runC10(p *eng.Prog, r *eng.Report, tier string) {
 				p1, _ := lg.Where(ci[0])
 				p2, _ := lg.Where(cc[0])
 				uncond := len(lg.FactsAt(p1)) == 0 && len(lg.FactsAt(p2)) == 0
-				order := lg.MustPassBefore(lg.Entry(), p2, func(q eng.Point, nd ast.Node) bool { return lf.ContainsCall(nd, "xmpp.Session.closeInputStream") != nil }, nil)
+				order := lg.MustPassBefore(lg.Entry(), p2, func(q eng.Point, nd ast.Node) bool {
+					return lf.ContainsCall(nd, "xmpp.Session.closeInputStream") != nil
+				}, nil)
 				// first error wins: err = e only under err == nil
 				first := true
 				for _, w := range lf.Writes() {
